@@ -29,6 +29,7 @@ import (
 	"github.com/openconfig/gnmi/errlist"
 	"github.com/openconfig/gnmi/latency"
 	"github.com/openconfig/gnmi/metadata"
+	"github.com/openconfig/gnmi/path"
 	"github.com/openconfig/gnmi/manager"
 	pb "github.com/openconfig/gnmi/proto/gnmi"
 	"github.com/openconfig/gnmi/subscribe"
@@ -140,6 +141,11 @@ func runIngest(targets []string, io IOpts, ops []Op) ([]Op, []IObs) {
 		opts = append(opts, lw)
 	}
 	c := cache.New(targets, opts...)
+	// every accepted update is also handed to a subscribe server (Server.Update
+	// indexes the notification's paths to find subscribers), as in the collector
+	if srv, err := subscribe.NewServer(c); err == nil {
+		c.SetClient(srv.Update)
+	}
 	seen := make([]Op, 0, len(ops))
 	obs := make([]IObs, 0, len(ops))
 	for _, op := range ops {
@@ -295,6 +301,14 @@ func runSub(q *Req) (*Req, SObs) {
 		srv, _ = subscribe.NewServer(c)
 	}
 	c.SetClient(srv.Update)
+	setupPanic := ""
+	for i := range q.Setup {
+		m := &pb.Notification{}
+		wire(notiPB(&q.Setup[i]), m)
+		if res, what := guard(func() { c.GnmiUpdate(m) }); res != "ok" {
+			setupPanic = res + ": " + what
+		}
+	}
 	ctx := context.Background()
 	if q.Peer {
 		ctx = peer.NewContext(ctx, &peer.Peer{Addr: &net.TCPAddr{IP: net.IPv4(127, 0, 0, 1), Port: 1}})
@@ -327,10 +341,29 @@ func runSub(q *Req) (*Req, SObs) {
 			seen.Kind = "none"
 		}
 	}
+	// The walker and sender goroutines Subscribe spawns cannot be guarded.  The
+	// request-dependent computations they perform (path.ToStrings of the prefix,
+	// path.CompletePath per entry) are therefore first run here, under guard; a
+	// panic there, or while relaying the setup notifications, is the observed
+	// outcome and the RPC is not started.
+	if setupPanic == "" && st.first != nil {
+		sl := st.first.GetSubscribe()
+		if res, what := guard(func() {
+			path.ToStrings(sl.GetPrefix(), true)
+			for _, sub := range sl.GetSubscription() {
+				path.CompletePath(sl.GetPrefix(), sub.GetPath())
+			}
+		}); res != "ok" {
+			setupPanic = "pre-flight of the walker's path computations: " + res + ": " + what
+		}
+	}
+	if setupPanic != "" {
+		return &seen, SObs{Res: "panic", Panic: setupPanic}
+	}
 	var err error
 	res, what := guard(func() { err = srv.Subscribe(st) })
 	o := SObs{Res: res, Panic: what, Synced: st.synced}
-	if res == "ok" && err != nil && !errors.Is(err, errStop) {
+	if o.Res == "ok" && err != nil && !errors.Is(err, errStop) {
 		o.Res = "err"
 		o.Code = uint32(status.Code(err))
 		if o.Code == uint32(codes.OK) {
